@@ -1344,6 +1344,11 @@ func (p *parser) parse(n *yaml.Node) *Workflow {
 		return w
 	}
 
+	if c := n.Content[0]; isNull(c) && c.Value == "" {
+		// Implicit empty document is put at the end of input by YAML parser. The line may not exist in the file
+		c.Line, c.Column = n.Line, n.Column
+	}
+
 	for _, kv := range p.parseMapping("workflow", n.Content[0], false, true) {
 		k, v := kv.key, kv.val
 		switch kv.id {
